@@ -171,6 +171,60 @@ def e2e_one(chk, sseed):
         w.destroy()
 
 
+def alternating_one(chk, sseed):
+    """the release loop under failures that change from round to round: a static InRelease/Release mismatch, and in every other
+    round every release URL answers 500 on all ten tries (then there is no release file at all). The loop must still end after
+    release_files_retries rounds, whatever the sequence of reasons"""
+    import random
+    from e2e import common, run_e2e, upstream
+    rng = random.Random(sseed)
+    w = common.World(rng, 1)
+    try:
+        repo = w.repos[0]
+        url = repo["url"]
+        cn = sorted(w.cfgs[url]["codenames"])[0]
+        cs = repo["codenames"][cn]
+        cs["flavours"] = ["InRelease", "Release", "Release.gpg"]
+        st0, _ = upstream.build_store(repo)
+        lines = st0[f"dists/{cn}/Release"][0].decode().split("\n")
+        idxs = [k for k, ln in enumerate(lines) if ln.startswith(" ") and len(ln.split()) == 3 and ln.split()[2] not in ("Release", "InRelease")
+                and int(ln.split()[1]) > 0]
+        if not idxs:
+            chk.evaluated(None)
+            return
+        k = rng.choice(idxs)
+        h, size, name = lines[k].split()
+        lines[k] = f" {h} {int(size) + 1} {name}"
+        cs["release_variant"] = "\n".join(lines)
+        store = upstream.build_store(repo)[0]
+        first_bad = rng.choice([0, 1])
+        plan = []
+        for fl in ("InRelease", "Release", "Release.gpg"):
+            n = 0
+            for rnd in range(14):
+                if rnd % 2 == first_bad:
+                    for _ in range(10):
+                        plan.append([f"dists/{cn}/{fl}", n, "500"])
+                        n += 1
+                else:
+                    n += 1
+        res = run_e2e.execute(w.sb, [repo], {url: store}, {url: plan}, vloop.RandomChooser(rng.randrange(1 << 30)), budget=8000)
+        replay = {"e2e": True, "alternating": True, "scenario_seed": sseed, "first_bad_round": first_bad}
+        if res.exit not in (0, 1):
+            chk.violation("run-does-not-terminate:alternating-release-failures", replay, f"no exit status: {res.exception!r}")
+        for u, r in res.obs.repos.items():
+            if len(r["rounds"]) > 3:
+                chk.violation("release-round-bound", replay, f"{u}: {len(r['rounds'])} release rounds under alternating failures, release_files_retries is 3")
+        if res.exit == 0:
+            chk.violation("inconsistent-release-published", replay, "exit 0 although InRelease and Release never agreed")
+        common.correspondence(chk, res, replay, control=True, publish=False)
+        chk.evaluated(("alternating", first_bad), sample={"alternating_release_failures": True, "rounds": [len(r["rounds"]) for r in res.obs.repos.values()], "exit": res.exit})
+        chk.count("alternating_release_failure_runs")
+        chk.traces += 1
+    finally:
+        w.destroy()
+
+
 def shared_one(chk, sseed):
     """files that share a URL (byte-identical siblings with by-hash): the shared URL fails 10-17 times before it answers, the
     canonical URLs are gone; every file has its own ten tries per URL, so a file may only be given up after ten tries of its
@@ -199,6 +253,8 @@ def shared_one(chk, sseed):
 def run(chk, tier, rng):
     for i in range(30 if tier == "quick" else 600):
         shared_one(chk, f"C12S-{chk.seed}-{i}")
+    for i in range(6 if tier == "quick" else 100):
+        alternating_one(chk, f"C12A-{chk.seed}-{i}")
     n = 300 if tier == "quick" else 5000
     for i in range(n):
         sc = l1.gen_scenario(rng)
@@ -213,7 +269,7 @@ def replay(rep):
         from core.check import Check
         chk = Check("C12", "quick", 0)
         chk.known = []
-        e2e_one(chk, rep["replay"]["scenario_seed"])
+        (alternating_one if rep["replay"].get("alternating") else e2e_one)(chk, rep["replay"]["scenario_seed"])
         for sig, path, msg, _ in chk.violations:
             print(f"REPLAY VIOLATION {sig}: {msg}")
         return 1 if chk.violations else 0
